@@ -13,7 +13,7 @@ from sv import cdf_c17c07 as cc
 
 PROPERTY = "C17"
 GEN = ["Cdf"]
-PROPS = ["ScoresVerif/Props/C17.lean"]
+PROPS = ["ScoresVerif/Props/C17.lean", "ScoresVerif/Props/C17Spec.lean"]
 DRIVER_DEPS = ["ScoresVerif.Driver.C17"]
 LEVEL = "proof"
 TRUSTED = ["xarray interpolate_na / ffill / bfill / sortby / idxmax / shift / sum(min_count) are modelled by their documented "
